@@ -450,6 +450,11 @@ def check(ctx):
             okl, why = False, "a configuration item can enter the list unvalidated: %s" % pth(p)
     ctx.ob("list-items.validated", lp, "dict -> load_tree (validating); Config -> validate()", okl, why)
 
+    # the same for every container of configurations (a dict of named configurations next to the list): a configuration object
+    # handed in is validated before the container takes it
+    from .links import check_adopted
+    check_adopted(ctx, validated_rule="container-items.validated")
+
     # ---------------------------------------------------------------- C11.6 validator()
     vd = model.function("support", "validator")
     inner = [f for f in vd.nested]
